@@ -1,4 +1,5 @@
 import Wasp.Model.Dist
+import Wasp.Proofs.Dist
 /-!
 # C08 — replicas converge regardless of delivery order, duplication and batching
 
@@ -14,41 +15,55 @@ Hypotheses, all explicit:
 * `TieFree`: two different updates to the same key never carry the same timestamp — the
   property's "the update with the greatest timestamp" presupposes it; `tie_counterexample`
   shows it is necessary;
-* retained topics are topic NAMES (no '+'/'#' level), as MQTT requires of a PUBLISH.
+* retained topics are topic NAMES (no '+'/'#' level), as MQTT requires of a PUBLISH;
+* for batching of retained updates into a NON-empty store: the store holds at most one message
+  per topic (true of every store reached from the empty one, `C08_retained_nodup`);
+  `retained_batching_needs_unique_keys` shows it is necessary.
+
+The definitions the statements use (`TieFree`, `….ts`, `valid…`, `subEntry`, `retEntry`) and all
+helper lemmas are in `Wasp/Proofs/Dist.lean`.
 -/
 namespace Wasp.Dist
 open Wasp.Crdt Wasp.Topic
-
-/-- no two distinct updates of the same key carry the same timestamp -/
-def TieFree {α κ : Type} (key : α → κ) (ts : α → Int) (l : List α) : Prop :=
-  ∀ a ∈ l, ∀ b ∈ l, key a = key b → ts a = ts b → a = b
-
-def SessionMD.ts (s : SessionMD) : Int := lastUpdate s.stamp
-def Sub.ts (s : Sub) : Int := lastUpdate s.stamp
-def Retained.ts (s : Retained) : Int := lastUpdate s.stamp
-
-def validSession (s : SessionMD) : Prop := s.id ≠ ""
-def validSub (s : Sub) : Prop := s.session ≠ "" ∧ s.pattern ≠ ""
-/-- a retained update as the broker produces it: it carries a publish whose topic is a
-    non-empty topic NAME, and it either adds or removes -/
-def validRetained (r : Retained) : Prop :=
-  r.hasPublish = true ∧ r.topic ≠ "" ∧ wfTopic (levels r.topic) = true ∧
-    (isAdded r.stamp = true ∨ isRemoved r.stamp = true)
 
 /-! ## batching is irrelevant: a batch is processed entry by entry -/
 
 theorem C08_sessions_batching (a b : List SessionMD) (st : List SessionMD) (ha : ∀ s ∈ a, validSession s) :
     mergeSessions (a ++ b) st = mergeSessions b (mergeSessions a st) := by
-  sorry
+  exact mergeSessions_append a b st ha
 
 theorem C08_subs_batching (a b : List Sub) (m : List (String × List Sub)) (ha : ∀ s ∈ a, validSub s) :
     mergeSubs (a ++ b) m = mergeSubs b (mergeSubs a m) := by
-  sorry
+  exact mergeSubs_append a b m ha
 
+/-- `hk` (the store holds at most one message per topic) was ADDED to the original statement:
+    without it the statement is false, see `retained_batching_needs_unique_keys`. It holds of
+    every store reached from the empty one (`C08_retained_nodup`). `hm` is not needed. -/
 theorem C08_retained_batching (a b : List Retained) (m : List (String × Retained))
-    (ha : ∀ r ∈ a, validRetained r) (hm : ∀ kr ∈ m, kr.1 = kr.2.topic ∧ wfTopic (levels kr.1) = true) :
+    (ha : ∀ r ∈ a, validRetained r) (hm : ∀ kr ∈ m, kr.1 = kr.2.topic ∧ wfTopic (levels kr.1) = true)
+    (hk : (m.map (·.1)).Nodup) :
     mergeRetained (a ++ b) m = mergeRetained b (mergeRetained a m) := by
-  sorry
+  have _ := hm
+  exact mergeRetained_append a b ha m hk
+
+/-- the invariant `hk` above: merging valid updates keeps the topics of the store unique -/
+theorem C08_retained_nodup (l : List Retained) (hv : ∀ r ∈ l, validRetained r)
+    (m : List (String × Retained)) (hk : (m.map (·.1)).Nodup) :
+    ((mergeRetained l m).map (·.1)).Nodup := by
+  exact mergeRetained_nodup l hv m hk
+
+/-- on a store with two messages under one topic (which satisfies the original `hm`),
+    `mergeMessages` aborts the batch at the first update of that topic (`len(local) > 1`),
+    so `[ra, rb]` in one batch drops `rb` while `[ra]` then `[rb]` applies it -/
+theorem retained_batching_needs_unique_keys :
+    let r1 : Retained := { topic := "a", payload := "x", qos := 0, retain := true, dup := false, added := 1, deleted := 0 }
+    let r2 : Retained := { topic := "a", payload := "y", qos := 0, retain := true, dup := false, added := 2, deleted := 0 }
+    let ra : Retained := { topic := "a", payload := "z", qos := 0, retain := true, dup := false, added := 3, deleted := 0 }
+    let rb : Retained := { topic := "b", payload := "w", qos := 0, retain := true, dup := false, added := 3, deleted := 0 }
+    let m : List (String × Retained) := [("a", r1), ("a", r2)]
+    (∀ kr ∈ m, kr.1 = kr.2.topic ∧ wfTopic (levels kr.1) = true) ∧
+    mergeRetained ([ra] ++ [rb]) m ≠ mergeRetained [rb] (mergeRetained [ra] m) := by
+  decide
 
 /-! ## last writer wins: what is stored under a key after merging the updates `l` -/
 
@@ -58,11 +73,9 @@ theorem C08_sessions_lww (l : List SessionMD) (hv : ∀ s ∈ l, validSession s)
     (∀ s, sessLookup id (mergeSessions l []) = some s →
         s ∈ l ∧ s.id = id ∧ ∀ s' ∈ l, s'.id = id → s'.ts ≤ s.ts) ∧
     (sessLookup id (mergeSessions l []) = none ↔ ∀ s ∈ l, s.id ≠ id) := by
-  sorry
-
-/-- the subscriptions stored under a pattern, looked up by session id -/
-def subEntry (m : List (String × List Sub)) (pattern session : String) : Option Sub :=
-  (subsLookup pattern m).find? (fun s => s.session == session)
+  rw [sessLookup_mergeSessions l hv id]
+  simpa [sessLookup, lwwFold_nil] using
+    lwwFold_filter_spec SessionMD.ts (fun s => decide (s.id = id)) l
 
 theorem C08_subs_lww (l : List Sub) (hv : ∀ s ∈ l, validSub s) (pattern session : String) :
     (∀ s, subEntry (mergeSubs l []) pattern session = some s →
@@ -70,46 +83,59 @@ theorem C08_subs_lww (l : List Sub) (hv : ∀ s ∈ l, validSub s) (pattern sess
         ∀ s' ∈ l, s'.pattern = pattern → s'.session = session → s'.ts ≤ s.ts) ∧
     (subEntry (mergeSubs l []) pattern session = none ↔
         ∀ s ∈ l, ¬ (s.pattern = pattern ∧ s.session = session)) := by
-  sorry
-
-def retEntry (m : List (String × Retained)) (topic : String) : Option Retained :=
-  (m.find? (fun kr => kr.1 == topic)).map (·.2)
+  rw [subEntry_mergeSubs l hv pattern session]
+  simpa [subEntry, subsLookup, lwwFold_nil, and_assoc] using
+    lwwFold_filter_spec Sub.ts (fun s => decide (s.pattern = pattern ∧ s.session = session)) l
 
 theorem C08_retained_lww (l : List Retained) (hv : ∀ r ∈ l, validRetained r) (topic : String) :
     (∀ r, retEntry (mergeRetained l []) topic = some r →
         r ∈ l ∧ r.topic = topic ∧ ∀ r' ∈ l, r'.topic = topic → r'.ts ≤ r.ts) ∧
     (retEntry (mergeRetained l []) topic = none ↔ ∀ r ∈ l, r.topic ≠ topic) := by
-  sorry
+  rw [retEntry_mergeRetained l hv topic [] (by simp)]
+  simpa [retEntry, lwwFold_nil] using
+    lwwFold_filter_spec Retained.ts (fun r => decide (r.topic = topic)) l
 
 /-! ## convergence: the same set of updates gives the same stored entries -/
 
 theorem C08_sessions_converge (l₁ l₂ : List SessionMD) (hv : ∀ s ∈ l₁, validSession s)
     (same : ∀ s, s ∈ l₁ ↔ s ∈ l₂) (tf : TieFree SessionMD.id SessionMD.ts l₁) (id : String) :
     sessLookup id (mergeSessions l₁ []) = sessLookup id (mergeSessions l₂ []) := by
-  sorry
+  have hv₂ : ∀ s ∈ l₂, validSession s := fun s hs => hv s ((same s).mpr hs)
+  rw [sessLookup_mergeSessions l₁ hv id, sessLookup_mergeSessions l₂ hv₂ id]
+  apply lwwFold_filter_congr _ _ _ _ same
+  intro a ha b hb pa pb
+  exact tf a ha b hb (by simp_all)
 
 theorem C08_subs_converge (l₁ l₂ : List Sub) (hv : ∀ s ∈ l₁, validSub s)
     (same : ∀ s, s ∈ l₁ ↔ s ∈ l₂) (tf : TieFree (fun s : Sub => (s.pattern, s.session)) Sub.ts l₁)
     (pattern session : String) :
     subEntry (mergeSubs l₁ []) pattern session = subEntry (mergeSubs l₂ []) pattern session := by
-  sorry
+  have hv₂ : ∀ s ∈ l₂, validSub s := fun s hs => hv s ((same s).mpr hs)
+  rw [subEntry_mergeSubs l₁ hv pattern session, subEntry_mergeSubs l₂ hv₂ pattern session]
+  apply lwwFold_filter_congr _ _ _ _ same
+  intro a ha b hb pa pb
+  exact tf a ha b hb (by simp_all)
 
 theorem C08_retained_converge (l₁ l₂ : List Retained) (hv : ∀ r ∈ l₁, validRetained r)
     (same : ∀ r, r ∈ l₁ ↔ r ∈ l₂) (tf : TieFree Retained.topic Retained.ts l₁) (topic : String) :
     retEntry (mergeRetained l₁ []) topic = retEntry (mergeRetained l₂ []) topic := by
-  sorry
+  have hv₂ : ∀ r ∈ l₂, validRetained r := fun r hr => hv r ((same r).mpr hr)
+  rw [retEntry_mergeRetained l₁ hv topic [] (by simp), retEntry_mergeRetained l₂ hv₂ topic [] (by simp)]
+  apply lwwFold_filter_congr _ _ _ _ same
+  intro a ha b hb pa pb
+  exact tf a ha b hb (by simp_all)
 
 /-! ## what the nodes LIST is a function of the stored entries -/
 
 /-- a session is listed iff it is the stored record of its id and that record is "added" -/
 theorem C08_sessAll_iff (st : State) (hk : (st.sessions.map (·.id)).Nodup) (s : SessionMD) :
     s ∈ sessAll st ↔ (sessLookup s.id st.sessions = some s ∧ isAdded s.stamp = true) := by
-  sorry
+  simp only [sessAll, sessFilter, List.mem_filter, Bool.and_true, mem_iff_sessLookup st.sessions hk s]
 
 /-- invariant needed above: merging keeps ids unique -/
 theorem C08_sessions_nodup (l : List SessionMD) (st : List SessionMD) (hk : (st.map (·.id)).Nodup) :
     ((mergeSessions l st).map (·.id)).Nodup := by
-  sorry
+  exact mergeSessions_nodup l st hk
 
 /-- so two nodes that received the same tie-free set of valid session updates list exactly the
     same sessions -/
@@ -117,14 +143,19 @@ theorem C08_sessions_listed_equal (p₁ p₂ : Nat) (l₁ l₂ : List SessionMD)
     (same : ∀ s, s ∈ l₁ ↔ s ∈ l₂) (tf : TieFree SessionMD.id SessionMD.ts l₁) (s : SessionMD) :
     s ∈ sessAll { peer := p₁, sessions := mergeSessions l₁ [] } ↔
     s ∈ sessAll { peer := p₂, sessions := mergeSessions l₂ [] } := by
-  sorry
+  rw [C08_sessAll_iff _ (mergeSessions_nodup l₁ [] (by simp)),
+    C08_sessAll_iff _ (mergeSessions_nodup l₂ [] (by simp))]
+  simp only [C08_sessions_converge l₁ l₂ hv same tf s.id]
 
 /-- an older update never overrides a newer one and never resurrects a removed entry:
     merging an update that is not strictly newer than the stored record changes nothing -/
 theorem C08_no_override (st : List SessionMD) (u loc : SessionMD) (hu : validSession u)
     (hl : sessLookup u.id st = some loc) (hold : u.ts ≤ loc.ts) :
     mergeSessions [u] st = st := by
-  sorry
+  rw [mergeSessions_cons _ _ _ hu]
+  simp only [mergeSessions, sessStep, sessOutdated, hl, isOutdated_eq]
+  simp only [SessionMD.ts] at hold
+  simp [Int.not_lt.mpr hold]
 
 /-- `TieFree` is necessary: two different updates with equal timestamps, two arrival orders -/
 theorem tie_counterexample :
